@@ -76,6 +76,13 @@ def check(prog: Program, run: Run) -> None:
     run.rule("C01.R9", "LINEAR / SCALE-LINEAR / TAB-INTP: the encoding formula is the algebraic "
              "inverse of the decoding formula (shared with C03.R1)", floor=2)
     _pairing(prog, run)
+    from . import common as _common
+    # a case / row / parameter named by the caller is found by comparing short names
+    _common.g6_lookup_by_short_name(prog, run, "C01.R4", [
+        "odxtools/multiplexer.py", "odxtools/parameters/*.py", "odxtools/codec.py",
+        "odxtools/table.py", "odxtools/*field.py", "odxtools/basicstructure.py",
+        "odxtools/request.py", "odxtools/response.py", "odxtools/dtcdop.py",
+        "odxtools/environmentdatadescription.py"], strict_get=True)
     _positioning(prog, run)
     _placeholder_width(prog, run)
     _journal_direction(prog, run)
